@@ -151,6 +151,33 @@ func runFlow(c fw.Case, p params, rec *fw.Recorder) {
 	step()
 	x.send(3, t, bi(45)) // fits the limit, but 45 + tax > 45: bank fails AFTER the keeper stored the usage -> tx must roll back
 	step()
+	// two transfers in ONE tx: the first fits, the second does not -> the whole tx fails and the
+	// allowance consumed by the first message must be given back (real baseapp atomicity)
+	{
+		x.syncHeight()
+		o := opRec{N: x.n, Kind: "multi-send", H: x.h, User: 0, Tok: t.idx, Amount: "10 then " + rem.String()}
+		x.logOp(o)
+		b := x.observe(0, t)
+		mk := func(a *big.Int) sdk.Msg {
+			return &skywaytypes.MsgSendToRemote{EthDest: ethDest, Amount: sdk.Coin{Denom: t.denom, Amount: mustInt(a)}, ChainReferenceId: chainRef, Metadata: world.Meta(e.users[0])}
+		}
+		tr := ch.Deliver(e.users[0], mk(bi(10)), mk(rem))
+		a := x.observe(0, t)
+		rec.Eval(1)
+		wit := map[string]any{"before": b, "after": a, "log": firstLine(tr.Log)}
+		if tr.OK() {
+			x.violate("limit/window-total-exceeded", fmt.Sprintf("tx with transfers 10 and %s accepted although only %s were left in the window", rem, rem), o, t, wit)
+			return
+		}
+		rec.Count("flow_multi_msg_tx_rejected", 1)
+		if !sameUsage(b, a) {
+			x.violate("limit/rejected-send-changed-usage", "a failed tx (second MsgSendToRemote over the limit) left the allowance of its first message consumed", o, t, wit)
+		}
+		if b.Sender.Cmp(a.Sender) != 0 || b.Module.Cmp(a.Module) != 0 {
+			x.violate("send/rejected-send-moved-funds", "a failed tx with two MsgSendToRemote moved funds", o, t, wit)
+		}
+		step()
+	}
 	x.send(0, t, rem) // fills the window exactly
 	step()
 	x.send(0, t, bi(1)) // window full
